@@ -534,6 +534,15 @@ pub fn gen_small_cell(idx: usize) -> VmSc {
     }
 }
 
+/// A program that prints one character of `vmsim::PRINT_CHARS` (see `vmsim::simulate`: also run through the
+/// `PrintChar` instantiation for that character).
+pub fn gen_print_char(idx: usize) -> VmSc {
+    let c = crate::vmsim::PRINT_CHARS[idx % crate::vmsim::PRINT_CHARS.len()];
+    let mut sc = gen_operand_cell(0);
+    sc.init.program = vec![Prog::I(Ins::PrintString(c.to_string()))];
+    sc
+}
+
 /// Number of cells of the enumerated operand grid (`gen_operand_cell`).
 pub fn operand_cells() -> usize {
     ALL_INT_OPS.len() * I64_POOL.len() * I64_POOL.len() + ALL_FLOAT_OPS.len() * f64_pool().len() * f64_pool().len()
